@@ -204,8 +204,10 @@ theorem afterWrLock_P (hc : Closed E P) (s : St σ) (t : Tid) (m : Meth) (h : P 
 theorem wrPart_P (hc : Closed E P) (s : St σ) (t : Tid) (m : Meth) (h : P s.core) : P (wrPart s t m).core := by
   unfold wrPart
   split
-  · exact afterWrLock_P hc _ t m (by simpa using h)
-  · simpa using h
+  · split
+    · exact afterWrLock_P hc _ t m (by simpa using h)
+    · simpa using h
+  · exact rdPart_P _ t m h
 
 theorem afterWwLock_P (hc : Closed E P) (s : St σ) (t : Tid) (m : Meth) (h : P s.core) : P (afterWwLock s t m).core := by
   unfold afterWwLock
